@@ -10,7 +10,7 @@
 
    Variant flag fix_timeout_panic: the pinned upstream tree (false) panicked in the caller of Send when the queue
    of a destination stayed full for the timeout; the repaired code (true) reports and drops that message. *)
-Require Import TSS.Base.Base TSS.Gen.NetConsts TSS.Net.Frame TSS.Net.FrameFacts.
+Require Import TSS.Base.Base TSS.Net.Frame TSS.Net.FrameFacts.
 From Coq Require Import Arith ZifyN ZifyNat ZifyBool.
 
 Record dstate := mkD {
@@ -275,8 +275,3 @@ Example queue_example :
   wire (st 2) = [20] /\ taken (st 2) = [20; 21] /\ d_up (st 2) = false /\ d_accepted (st 2) = [20; 21] /\
   st 3 = d_init /\ Forall (no_write_failure 1) ops.
 Proof. cbv zeta. repeat split; try (vm_compute; reflexivity). repeat constructor; discriminate. Qed.
-
-(* what /repo does on an enqueue timeout, as read off the source by tools/gen_netconsts.py on every run (syntactic:
-   the onTimeout closure of SocketRemoteParties.Send contains no panic call): the repaired variant *)
-Lemma repo_send_timeout_repaired : send_timeout_panics = false.
-Proof. reflexivity. Qed.
